@@ -27,4 +27,9 @@ package shell
 //@ at return bytes.(*Buffer).String#0: ghost capOut = stdout.text
 //@ at return bytes.(*Buffer).String#1: ghost capErr = stderr.text
 //@ ensures [C20,captured-output-is-reported-verbatim] result1 == nil ==> result0.Stdout == capOut && result0.Stderr == capErr
+// the exit status the interpreter reports is the status of the result; without one the status is 0
+//@ at entry: ghost capIsExit = false
+//@ at return IsExitStatus#0: ghost capStatus = status
+//@ at return IsExitStatus#0: ghost capIsExit = ok
+//@ ensures [C09,exit-status-is-reported] result1 == nil ==> result0.Status == (capIsExit ? capStatus : 0)
 //@ at call ListEnviron#0: assert [C13,passed-variables-come-after-the-process-environment] env == slicecat(environ, old(env))
